@@ -132,6 +132,7 @@ def main(args):
     doc = {"mutations": len(results), "detected": sum(1 for r in results if r.get("detected")), "results": results,
            "wall_s": round(time.time() - t0, 1)}
     if not only:
+        os.makedirs(os.path.join(VERIF, "reports"), exist_ok=True)
         with open(os.path.join(VERIF, "reports", "sensitivity.json"), "w", encoding="utf-8") as fh:
             json.dump(doc, fh, indent=1)
     print(f"sensitivity: {doc['detected']}/{doc['mutations']} detected wall={doc['wall_s']}s")
